@@ -60,6 +60,7 @@ SCENARIOS = [
     # version-error NOTIFICATION / peer close early in the session, then an unanswered reconnect
     [("reach", "OpenConfirm"), ("fire", 1), ("ev", "notif_ver"), ("cdone",), ("wait", 5)],
     [("reach", "OpenSent"), ("ev", "peer_close"), ("wait", 6)],
+    [("reach", "OpenSent"), ("ev", "peer_close"), ("wait", 14)],      # ... unanswered for more than 240 s
     [("reach", "OpenSent"), ("ev", "notif_ver"), ("wait", 5)],
     # error close whose completion is held back while the next session comes up
     [("reach", "Established"), ("ev", "bad_marker"), ("wait", 2), ("conn_ok",), ("reach", "Established"), ("cdone",), ("wait", 3)],
